@@ -111,6 +111,40 @@ def run(tier):
             if pd != cpp['dpieces']:
                 chk.violation('python-vs-cpp:%s:%s' % (tag, n), 'on %s UTC ZoneSpecifier answers %s, ExtendedZoneProcessor %s' % (tag, pd[:3], cpp['dpieces'][:3]), {'zone': n, 'day': tag})
     chk.add(zones_compared_on_boundary_days=ntail)
+    # freshly compiled sources: the Python tables the compiler writes, read by ZoneSpecifier, against the C++ tables it writes,
+    # read by ExtendedZoneProcessor (one-minute offsets, remainders of 8..14 minutes, negative sub-hour offsets, 0:20 shifts...)
+    nfresh = 0
+    srcg = compiler.gen_source(random.Random(common.seed() * 977 + 5), 40 if tier == 'quick' else 160)
+    wf = os.path.join(work, 'fresh')
+    os.makedirs(wf, exist_ok=True)
+    rx, outx, errx = compiler.run_compiler(srcg, wf, 'extended', flags=('arduino', 'python', 'pieces'))
+    rb, outb, errb = compiler.run_compiler(srcg, wf, 'basic', flags=('arduino',))
+    if rx is None or rb is None:
+        chk.notes.append('generated source not accepted by the compiler: %s' % ((errx or errb),))
+    else:
+        exes, berr = compiler.build_tools_for(os.path.join(outb, 'arduino'), os.path.join(outx, 'arduino'), 'c04-fresh')
+        if exes is None:
+            chk.violation('fresh:does-not-compile', 'generated C++ tables do not compile: %s' % berr[-1200:], {})
+        else:
+            implf, crashesf = tzconf.scan_db(exes['tzscan'], 'extended', len(rx['emitted_zones']), 300, 0, chunk=8)
+            for c in crashesf:
+                chk.violation('fresh:cpp:crash', 'C++ sweep of the generated tables crashed: %s' % (c[3],), {})
+            for n in sorted(rx['emitted_zones']):
+                cpp = implf.get(n)
+                ps = (rx['pieces'].get(n) or {}).get('14-1-1')
+                if not cpp or ps is None:
+                    continue
+                pd = []
+                for t, o in ps:
+                    rec = [t // 86400, t % 86400] + (list(o) if len(o) == 3 else [999999, 0, str(o)])
+                    if not pd or pd[-1][2:] != rec[2:]:
+                        pd.append(rec)
+                nfresh += 1
+                if pd != cpp['dpieces']:
+                    j = next((i for i in range(min(len(pd), len(cpp['dpieces']))) if pd[i] != cpp['dpieces'][i]), min(len(pd), len(cpp['dpieces'])))
+                    chk.violation('fresh:python-vs-cpp:%s' % n, 'generated zone %s: ZoneSpecifier on the generated Python tables and ExtendedZoneProcessor on the generated C++ tables differ at piece %d: python %s, C++ %s' % (
+                        n, j, pd[j] if j < len(pd) else None, cpp['dpieces'][j] if j < len(cpp['dpieces']) else None), {'zone': n})
+    chk.add(freshly_compiled_zones_compared=nfresh)
     # TLC judges the Python trace (the C++ trace of the same tables is judged in C01)
     lines, _links = dbsource.reconstruct(os.path.join(common.REPO, 'src/ace_time/zonedbx'))
     r, njudged, bad = compiler.judge(chk, 'zonedbx:python', lines, names, pypieces, work, 2000, 2050)
